@@ -42,8 +42,14 @@ func (ir *inputReader) getContents(offset *int64, line *int) string {
 	for offset != nil && *offset > bufSize*3/4 {
 		n, err := io.Copy(&buf,
 			io.LimitReader(ir.rs, min(bufSize, *offset-bufSize/4)))
+		if bs := buf.Bytes(); n > 1 && bs[n-1] == '\r' {
+			// leave a final "\r" for the next round, "\n" may follow
+			if _, err := ir.rs.Seek(-1, io.SeekCurrent); err == nil {
+				n--
+			}
+		}
 		*offset -= n
-		*line += bytes.Count(buf.Bytes(), []byte{'\n'})
+		*line += countLines(buf.Bytes()[:n])
 		buf.Reset()
 		if err != nil || n == 0 {
 			break
@@ -57,6 +63,13 @@ func (ir *inputReader) getContents(offset *int64, line *int) string {
 	}
 	_, _ = io.Copy(&buf, r)
 	return buf.String()
+}
+
+// countLines counts the line ends in bs the way error messages split lines:
+// "\n", "\r\n" and "\r" each end one line.
+func countLines(bs []byte) int {
+	return bytes.Count(bs, []byte{'\n'}) + bytes.Count(bs, []byte{'\r'}) -
+		bytes.Count(bs, []byte{'\r', '\n'})
 }
 
 type inputIter interface {
@@ -110,8 +123,11 @@ func (i *jsonInputIter) Next() (any, bool) {
 		// discard only what has been decoded; the decoder reads ahead, and an
 		// error in the data read ahead is reported relative to the buffer
 		n := int(i.pos() - i.offset)
+		if n > 0 && buf.Bytes()[n-1] == '\r' {
+			n-- // leave a final "\r" in the buffer, "\n" may follow
+		}
 		i.offset += int64(n)
-		i.line += bytes.Count(buf.Next(n), []byte{'\n'})
+		i.line += countLines(buf.Next(n))
 	}
 	return v, true
 }
